@@ -14,7 +14,7 @@ def subset(src, dst, k, m):
     n = 0
     with open(src) as f, open(dst, "w") as o:
         for i, line in enumerate(f):
-            if i % m == k: o.write(line); n += 1
+            if vlib.pick_hash(i, m, k + 7 * vlib.seed()): o.write(line); n += 1
     return n
 
 def run(tier):
